@@ -187,7 +187,7 @@ R.contract(
          "implies(iso_ok(ep_ts(episodes[j])), iso_value(ep_ts(episodes[j])) >= iso_value(some(hints['now'])) - 86400 * " + _DAYS + "))))"),
     ],
     raises="none",
-    loops=_OUT_LOOP, locals=_SEARCH_LOCALS,
+    loops=_OUT_LOOP, locals=_SEARCH_LOCALS, feas_timeout_ms=60,
     unreachable_ok=["if tier == 'cluster_semantic':"],   # this variant fixes tier = exact_semantic; the other arms have their own
 )
 R.contract(
@@ -202,7 +202,7 @@ R.contract(
          "result[i].text == episodes[j].get('text', '') and quarter_of(ep_ts(episodes[j])) in some(hints['archive_quarters']))))"),
     ],
     raises="none",
-    loops=_OUT_LOOP, locals=_SEARCH_LOCALS,
+    loops=_OUT_LOOP, locals=_SEARCH_LOCALS, feas_timeout_ms=60,
     unreachable_ok=_EXACT_ARM + _CLUSTER_ARM + ["results = []"],   # tier = archive
 )
 R.contract(
@@ -212,7 +212,124 @@ R.contract(
     requires=[("not-a-known-tier", "tier != 'exact_semantic' and tier != 'cluster_semantic' and tier != 'archive'")],
     ensures=[("unknown-tier-yields-nothing", "len(result) == 0"), _COMMON[-1]],
     raises="none",
-    loops=_OUT_LOOP, locals=_SEARCH_LOCALS,
+    loops=_OUT_LOOP, locals=_SEARCH_LOCALS, feas_timeout_ms=60,
     # no known tier: all three arms are dead, and the output loop body never runs (results == [])
     unreachable_ok=_EXACT_ARM + _CLUSTER_ARM + _ARCHIVE_ARM + ["out.append("],
+)
+
+# ------------------------------------------------------------------ MMR (quality_mmr.py): rerankers only permute
+MMR = "clematis/engine/stages/t2/quality_mmr.py:"
+R.untype("Toks")                       # token sets are only handed to dist_fn
+R.untype("MmrId", strlike=True)        # ids are only compared (tie-break)
+R.record("MMRItem", {"id": "Un[MmrId]", "rel": "float", "toks": "Un[Toks]"}, pyclass="clematis.engine.stages.t2.quality_mmr:MMRItem")
+R.funtype("DistFn", params=["a", "b"], returns="float")     # any total real-valued function
+ITEMS = "List[MMRItem]"
+_N = "len(items)"
+_PERM_OF_RANGE = [   # `X` is a permutation of range(len(items)): in range, pairwise distinct, onto (=> len(X) == n)
+    ("%(tag)sindices-in-range", "forall(p, 0 <= p < len(%(X)s), 0 <= %(X)s[p] and %(X)s[p] < " + _N + ")"),
+    ("%(tag)sno-duplicates", "forall2(p, q, 0 <= p and p < q and q < len(%(X)s), %(X)s[p] != %(X)s[q])"),
+    # trig(i) is the engine's trigger marker (defined True): lets callers re-use the clause for a given index
+    ("%(tag)severy-index-occurs", "forall(i, 0 <= i < " + _N + " and trig(i), exists(p, 0 <= p < len(%(X)s), %(X)s[p] == i))"),
+]
+
+
+def _perm(X, tag=""):
+    return [(n % {"tag": tag}, c % {"X": X}) for n, c in _PERM_OF_RANGE]
+
+
+_MKEY = "(0 - items[%(a)s].rel, items[%(a)s].id)"
+R.contract(
+    MMR + "_initial_order", "C11",
+    types={"items": ITEMS}, returns="List[int]",
+    ensures=_perm("result") + [
+        ("same-length", "len(result) == " + _N),
+        ("ordered-by-relevance-desc-then-id",
+         "forall2(p, q, 0 <= p and p < q and q < len(result), " + _MKEY % {"a": "result[p]"} + " <= " + _MKEY % {"a": "result[q]"} + ")"),
+        ("input-untouched", "seq_eq(items, old(items))"),
+    ],
+    raises="none",
+)
+
+_KEFF = "ite(is_none(k) or some(k) > " + _N + ", " + _N + ", some(k))"
+_SEL_INV = [
+    "n == " + _N + " and seq_eq(items, pre_loop(items))",
+    "forall(p, 0 <= p < len(remaining), 0 <= remaining[p] and remaining[p] < n)",
+    "forall2(p, q, 0 <= p and p < q and q < len(remaining), remaining[p] != remaining[q])",
+    "forall(p, 0 <= p < len(selected), 0 <= selected[p] and selected[p] < n)",
+    "forall2(p, q, 0 <= p and p < q and q < len(selected), selected[p] != selected[q])",
+    "forall2(p, q, 0 <= p and p < len(selected) and 0 <= q and q < len(remaining), selected[p] != remaining[q])",
+    "len(selected) + len(remaining) == n",
+    "len(selected) <= max(some(k), 0) and some(k) <= n",
+]
+R.contract(
+    MMR + "mmr_select", "C11",
+    types={"items": ITEMS, "k": "Optional[int]", "lam": "float", "dist_fn": "DistFn"},
+    returns="List[int]",
+    ensures=[
+        ("indices-in-range", "forall(p, 0 <= p < len(result), 0 <= result[p] and result[p] < " + _N + ")"),
+        ("no-duplicates", "forall2(p, q, 0 <= p and p < q and q < len(result), result[p] != result[q])"),
+        ("selects-exactly-min-k-n", "len(result) == max(" + _KEFF + ", 0)"),
+        ("input-untouched", "seq_eq(items, old(items))"),
+    ],
+    raises={"ValueError": "lam < 0 or lam > 1"},
+    ensures_exc=[("input-untouched", "seq_eq(items, old(items))")],
+    loops={
+        0: {"inv": _SEL_INV},
+        1: {"inv": ["exists(p, 0 <= p < len(remaining), remaining[p] == best_i)"]},
+        2: {"inv": []},
+    },
+    locals={"selected": "List[int]", "remaining": "List[int]", "best_val": "Optional[float]", "div": "float", "score": "float"},
+    feas_timeout_ms=60,
+)
+
+# X == A + B  ==>  every element of A and of B occurs in X (witness index len(A)+q is supplied by the lemma)
+R.ghostfun("lemma_concat_occurs", ["X", "A", "B"],
+           requires=["len(X) == len(A) + len(B)", "forall(p, 0 <= p < len(A), X[p] == A[p])",
+                     "forall(q, 0 <= q < len(B), X[len(A) + q] == B[q])"],
+           ensures=["forall(p, 0 <= p < len(A), exists(r, 0 <= r < len(X), X[r] == A[p]))",
+                    "forall(q, 0 <= q < len(B), exists(r, 0 <= r < len(X), X[r] == B[q]))"])
+
+
+def _concat_lemma():
+    import z3
+    X, A, B = [z3.Array(n, z3.IntSort(), z3.IntSort()) for n in ("X", "A", "B")]
+    la, lb, lx, p, q, r = z3.Ints("la lb lx p q r")
+    hyps = [la >= 0, lb >= 0, lx == la + lb,
+            z3.ForAll([p], z3.Implies(z3.And(0 <= p, p < la), X[p] == A[p])),
+            z3.ForAll([q], z3.Implies(z3.And(0 <= q, q < lb), X[la + q] == B[q]))]
+    return [("from-left", hyps, z3.ForAll([p], z3.Implies(z3.And(0 <= p, p < la), z3.Exists([r], z3.And(0 <= r, r < lx, X[r] == A[p]))))),
+            ("from-right", hyps, z3.ForAll([q], z3.Implies(z3.And(0 <= q, q < lb), z3.Exists([r], z3.And(0 <= r, r < lx, X[r] == B[q])))))]
+
+
+R.lemma("concat_occurs", "C11", _concat_lemma)
+
+# O lists every index < n, X contains every element of O  ==>  X lists every index < n
+R.ghostfun("lemma_onto_compose", ["X", "O", "n"],
+           requires=["forall(i, 0 <= i < n and trig(i), exists(r, 0 <= r < len(O), O[r] == i))",
+                     "forall(r, 0 <= r < len(O), exists(p, 0 <= p < len(X), X[p] == O[r]))"],
+           ensures=["forall(i, 0 <= i < n and trig(i), exists(p, 0 <= p < len(X), X[p] == i))"])
+
+
+def _onto_lemma():
+    import z3
+    X, O = [z3.Array(n, z3.IntSort(), z3.IntSort()) for n in ("X", "O")]
+    lo, lx, n, i, p, r = z3.Ints("lo lx n i p r")
+    hyps = [z3.ForAll([i], z3.Implies(z3.And(0 <= i, i < n), z3.Exists([r], z3.And(0 <= r, r < lo, O[r] == i)))),
+            z3.ForAll([r], z3.Implies(z3.And(0 <= r, r < lo), z3.Exists([p], z3.And(0 <= p, p < lx, X[p] == O[r]))))]
+    return [("compose", hyps, z3.ForAll([i], z3.Implies(z3.And(0 <= i, i < n), z3.Exists([p], z3.And(0 <= p, p < lx, X[p] == i)))))]
+
+
+R.lemma("onto_compose", "C11", _onto_lemma)
+
+R.contract(
+    MMR + "mmr_reorder_full", "C11",
+    types={"items": ITEMS, "k": "Optional[int]", "lam": "float"},
+    returns="List[int]",
+    ensures=_perm("result") + [("input-untouched", "seq_eq(items, old(items))")],
+    raises={"ValueError": "lam < 0 or lam > 1"},
+    asserts={
+        "picked": ["forall((v, 'int'), v in picked, exists(p, 0 <= p < len(head), head[p] == v))"],
+        "tail": ["forall(r, 0 <= r < len(order0), implies(not (order0[r] in picked), exists(q, 0 <= q < len(tail), tail[q] == order0[r])))",
+                 "forall(r, 0 <= r < len(order0), exists(p, 0 <= p < len(head), head[p] == order0[r]) or exists(q, 0 <= q < len(tail), tail[q] == order0[r]))"]},
+    post_setup=["lemma_concat_occurs(result, head, tail)", "lemma_onto_compose(result, order0, len(items))"],
 )
